@@ -70,6 +70,7 @@ def src_classes(src):
     """class predicates of known findings evaluated on source text (for shipped / mutated sources)"""
     c = set()
     if re.search(r"%\s*\(?\s*\d*\.\d*[1-9]|\d*\.\d*[1-9]\d*\s*\)?\s*%", src): c.add("F62")   # x % y with a non-integer literal operand
+    if re.search(r"match[^{}]*\{[^{}=]*=>\s*\(?\s*match\b", src): c.add("F63")      # a match directly inside the first arm of a match
     if re.search(r"\.\.\s*\}", src): c.add("F17")            # incomplete record literal {a=1, ..}
     # F46: a comparison whose operand is a tuple / record projection (x.0 > y, r.attack <= r.decay)
     if re.search(r"\w\.\w+\s*(<=|>=|==|!=|<|>)\s|\s(<=|>=|==|!=|<|>)\s*\w+\.[A-Za-z0-9_]+", src): c.add("F46")
@@ -187,6 +188,8 @@ def run(ck):
             ms = mutate_source(rng, src)
             if ms and ms != src:
                 reqs.append({"src": ms, "path": f, "n": nrun, "state": False, "sched": True}); meta.append((f, "mut%d" % k))
+    for msrc in [gen_match_source(ck.rng.fork(("match-C01", i))) for i in range(150 if quick else 1500)]:
+        reqs.append({"src": msrc, "n": 12, "state": False, "sched": False}); meta.append(("match", "gen-match"))
     # witnesses of the listed findings (and of repaired defects, which must stay repaired) run with every tier
     wits = json.load(open(os.path.join(VERIF, "corpus", "C01", "witnesses.json")))
     for w in wits:
